@@ -25,6 +25,7 @@ type Config struct {
 	Replay       []uint8 // if non-nil: decisions are read from here (exhausted -> 0), Strategy ignored
 	PoolReplay   []uint8
 	Pool         PoolConfig
+	KeepPool     bool // do not reset the simulated pool: the run is part of a longer single-task pool session
 }
 
 // Report is what a run leaves behind.
@@ -466,7 +467,9 @@ func Run(cfg Config, fns ...func()) Report {
 	w.done = 0
 	w.overflow = 0
 	w.ntasks = uint32(n)
-	poolBegin(cfg.Pool)
+	if !cfg.KeepPool {
+		poolBegin(cfg.Pool)
+	}
 	for i := 0; i < n; i++ {
 		spawn(int32(i), fns[i])
 	}
@@ -512,6 +515,10 @@ func Run(cfg Config, fns ...func()) Report {
 	for i := range rep.SwitchTrace {
 		rep.SwitchTrace[i] = w.sw[i]
 	}
-	rep.PoolFresh, rep.PoolSame, rep.PoolCross = poolEnd()
+	if cfg.KeepPool {
+		rep.PoolFresh, rep.PoolSame, rep.PoolCross = poolFresh, poolSame, poolCross
+	} else {
+		rep.PoolFresh, rep.PoolSame, rep.PoolCross = poolEnd()
+	}
 	return rep
 }
